@@ -198,6 +198,9 @@ func siblingHistories(c *vh.Check, ts []target, ref map[string]string, maxLen in
 				c.Traces.Add(1)
 				c.States.Add(1)
 				same := last == ref[ts[idx[k]].name]
+				if len(h) == 2 && h[0] == 0 && h[1] == 1 {
+					c.Sample(map[string]any{"part": "H:siblings", "history": names, "last_compilation_equals_fresh_process_reference": same})
+				}
 				c.Outcome(fmt.Sprintf("H:siblings:%s:len%d:%v", strings.SplitN(g, "/", 2)[0], len(h), same))
 				if !same {
 					c.Violation("c11:H:siblings:"+strings.Join(names, ";"), map[string]any{"history": names, "hash": last, "fresh_process_hash": ref[ts[idx[k]].name],
